@@ -193,11 +193,40 @@ pub mod time {
         pub fn duration_since(&self, earlier: Instant) -> Duration {
             Duration::from_nanos(self.0.saturating_sub(earlier.0))
         }
+        pub fn saturating_duration_since(&self, earlier: Instant) -> Duration {
+            Duration::from_nanos(self.0.saturating_sub(earlier.0))
+        }
+        pub fn checked_duration_since(&self, earlier: Instant) -> Option<Duration> {
+            self.0.checked_sub(earlier.0).map(Duration::from_nanos)
+        }
+        /// as with std's Instant (seconds kept in an i64): None when the sum cannot be represented
+        pub fn checked_add(&self, d: Duration) -> Option<Instant> {
+            if d.as_secs() > i64::MAX as u64 - (self.0 / 1_000_000_000) - 1 {
+                return None;
+            }
+            // representable for std; the virtual clock itself counts nanoseconds in a u64
+            Some(Instant(self.0.saturating_add(d.as_nanos().min(u64::MAX as u128) as u64)))
+        }
+        pub fn checked_sub(&self, d: Duration) -> Option<Instant> {
+            let n = d.as_nanos();
+            if n > self.0 as u128 {
+                None
+            } else {
+                Some(Instant(self.0 - n as u64))
+            }
+        }
     }
     impl Add<Duration> for Instant {
         type Output = Instant;
+        /// panics where std's does
         fn add(self, d: Duration) -> Instant {
-            Instant(self.0.saturating_add(d.as_nanos().min(u64::MAX as u128) as u64))
+            self.checked_add(d).expect("overflow when adding duration to instant")
+        }
+    }
+    impl Sub<Duration> for Instant {
+        type Output = Instant;
+        fn sub(self, d: Duration) -> Instant {
+            self.checked_sub(d).expect("overflow when subtracting duration from instant")
         }
     }
     impl Sub<Instant> for Instant {
@@ -342,6 +371,9 @@ pub mod sync {
             });
             // registered before the mutex is released: no lost wake-up
             self.waiters.lock().unwrap().push(w.clone());
+            // (a timeout of a century or more never fires within an execution: it is a wait
+            // without a timer, so that a wake-up lost on it still shows as a deadlock)
+            let timeout = timeout.filter(|d| d.as_secs() < 3_000_000_000);
             if let Some(d) = timeout {
                 RT.with(|rt| {
                     let mut rt = rt.borrow_mut();
